@@ -15,6 +15,7 @@ mod ops7;
 mod ops8;
 mod ops9;
 mod ops10;
+mod ops11;
 
 fn main() {
     std::panic::set_hook(Box::new(|_| {}));
